@@ -626,6 +626,11 @@ class Abs:
                 return f[1](*args, **kw)
             if tag == "sampler":
                 return Tok("draw(%s)" % f[1])
+            if tag == "method" and len(f) == 2 and isinstance(self.self_obj, Obj):
+                # an unsummarised method of an open object: interpret the real one if the class defines it
+                fi, kind = self._real_member(self.self_obj.cls, f[1])
+                if fi is not None and kind == "method":
+                    return self._inline(fi, self.self_obj, args, kw)
             if tag == "func":
                 return self._inline(f[1], None, args, kw)
             if tag == "imeth":
